@@ -4,8 +4,8 @@ family of double-ended queues, one per prefix, next to a dictionary": for every
 history of push / pull / peek calls on any prefixes and sides, mixed with
 key-addressed calls on keys outside the queue key ranges and with the bulk
 removals, every call returns what the reference returns, and the final states
-correspond (`qrun_refines_partial`; "partial" because four of the key-addressed
-calls — add, touch, incr and, through it, decr — are not covered yet, see below).
+correspond (`qrun_refines`; `qrun_refines_partial` is the first version, without
+add / touch / incr, kept as a corollary).
 
 Definitions used in the statements (DC/Proofs/QRefineDefs.lean):
  * `QRefines c q clock`: for EVERY prefix the rows of `c.queueRows p` denote, in key order, exactly
@@ -35,14 +35,13 @@ Hypotheses of the history theorem, and why.
  * The integer results of clear / evict / expire / cull are masked on both sides (as in
    C03_Refine: they count physically stored rows).
 
-Not covered (the full statement would have `QSpec.Covered` where this file has `QProved`):
-`add`, `touch`, `incr` on ordinary keys.  `QSpec.step` specifies them (by delegation to
-`Spec.step`); what is missing is, for each, the frame lemma that `set` has
-(`set_other_rows` / `set_keeps_rows`: the rows of the other keys are neither created nor
-removed by the call) — `qr_frame` and `rf_assemble_ord` then give the step exactly as in
-`qr_set_step`.
+All calls of `QSpec.Covered` are covered.  The key-addressed writes (set, add, touch, incr) leave
+the queues alone by a row-level frame (`set_other_rows` / `set_keeps_rows`, `add_frame`,
+`touch_frame`, `incr_frame`: the rows of the other keys are neither created nor altered, and not
+removed when `cull_limit = 0`) combined with the view of the state (`qr_frame`); the dictionary part
+is the argument of C03_Refine restricted to the ordinary keys (`rf_assemble_ord`).
 -/
-import DC.Proofs.QRefineSet
+import DC.Proofs.QRefineWrite
 
 namespace DC.Cache
 open DC.Spec DC.QSpec
@@ -109,9 +108,9 @@ theorem qproved_covered (op : Op) (h : QProved op = true) : QSpec.Covered op = t
 /-- one call of a history: its result is the reference's result, the states correspond at the
 call's clock, the invariant holds with the budget the call did not use, and the configuration is
 unchanged -/
-theorem qstep_refines (c : Cache) (q : QSpec.State) (n : Nat) (clock : Int) (op : Op)
+theorem qstep_refines_covered (c : Cache) (q : QSpec.State) (n : Nat) (clock : Int) (op : Op)
     (hok : QOk c (n + pushCost op)) (hr : QRefines c q clock)
-    (hk : QProved op = true) (ho : QSpec.Ordinary c.cfg op = true)
+    (hk : QSpec.Covered op = true) (ho : QSpec.Ordinary c.cfg op = true)
     (hq : c.cfg.cullLimit = 0 ∨ PushNoTtl op = true)
     (hm : ∀ t, opClock op = some t → clock ≤ t) :
     (if Determined op then (c.step op).2 else .none) = (QSpec.step q c.cfg op).2 ∧
@@ -122,6 +121,18 @@ theorem qstep_refines (c : Cache) (q : QSpec.State) (n : Nat) (clock : Int) (op 
     simp only [QSpec.Ordinary, Bool.not_eq_true'] at ho
     have h := qr_set_step c q n clock now E k v ttl read tag hok hr (hm _ rfl) ho
     exact ⟨h.1, h.2.1, h.2.2, rf_set_cfg _ _ _ _ _ _ _ _⟩
+  | add E now k v ttl read tag =>
+    simp only [QSpec.Ordinary, Bool.not_eq_true'] at ho
+    have h := qr_add_step c q n clock now E k v ttl read tag hok hr (hm _ rfl) ho
+    exact ⟨h.1, h.2.1, h.2.2, rf_add_cfg _ _ _ _ _ _ _ _⟩
+  | touch E now k ttl =>
+    simp only [QSpec.Ordinary, Bool.not_eq_true'] at ho
+    have h := qr_touch_step c q n clock now E k ttl hok hr (hm _ rfl) ho
+    exact ⟨h.1, h.2.1, h.2.2, rf_touch_cfg _ _ _ _ _⟩
+  | incr E now k delta dflt =>
+    simp only [QSpec.Ordinary, Bool.not_eq_true'] at ho
+    have h := qr_incr_step c q n clock now E k delta dflt hok hr (hm _ rfl) ho
+    exact ⟨h.1, h.2.1, h.2.2, rf_incr_cfg _ _ _ _ _ _⟩
   | get E now k read et tg =>
     simp only [QSpec.Ordinary, Bool.not_eq_true'] at ho
     have h := qr_get_step c q n clock now E k read et tg hok hr (hm _ rfl) ho
@@ -166,6 +177,17 @@ theorem qstep_refines (c : Cache) (q : QSpec.State) (n : Nat) (clock : Int) (op 
     exact ⟨rfl, h.1, h.2, rf_cull_cfg c _ hok.pol⟩
   | _ => cases hk
 
+/-- the first version's statement (`QProved`: without add / touch / incr) -/
+theorem qstep_refines (c : Cache) (q : QSpec.State) (n : Nat) (clock : Int) (op : Op)
+    (hok : QOk c (n + pushCost op)) (hr : QRefines c q clock)
+    (hk : QProved op = true) (ho : QSpec.Ordinary c.cfg op = true)
+    (hq : c.cfg.cullLimit = 0 ∨ PushNoTtl op = true)
+    (hm : ∀ t, opClock op = some t → clock ≤ t) :
+    (if Determined op then (c.step op).2 else .none) = (QSpec.step q c.cfg op).2 ∧
+    QRefines (c.step op).1 (QSpec.step q c.cfg op).1 ((opClock op).getD clock) ∧
+    QOk (c.step op).1 n ∧ (c.step op).1.cfg = c.cfg :=
+  qstep_refines_covered c q n clock op hok hr (qproved_covered op hk) ho hq hm
+
 theorem qspec_run_cons (q : QSpec.State) (cfg : Cfg) (op : Op) (ops : List Op) :
     QSpec.run q cfg (op :: ops) = QSpec.run (QSpec.step q cfg op).1 cfg ops := rfl
 
@@ -175,9 +197,9 @@ theorem QOk.weaken {c : Cache} {n m : Nat} (h : QOk c (n + m)) : QOk c n := by
   | succ m ih => exact ih (QOk.mono (by rw [← Nat.add_assoc] at h; exact h))
 
 /-- the history theorem with everything the induction carries -/
-theorem qrun_refines_strong (c : Cache) (q : QSpec.State) (n : Nat) (clock : Int) (ops : List Op)
+theorem qrun_refines_covered_strong (c : Cache) (q : QSpec.State) (n : Nat) (clock : Int) (ops : List Op)
     (hok : QOk c (n + pushCosts ops)) (hr : QRefines c q clock)
-    (hk : ∀ op ∈ ops, QProved op = true) (ho : ∀ op ∈ ops, QSpec.Ordinary c.cfg op = true)
+    (hk : ∀ op ∈ ops, QSpec.Covered op = true) (ho : ∀ op ∈ ops, QSpec.Ordinary c.cfg op = true)
     (hq : c.cfg.cullLimit = 0 ∨ ∀ op ∈ ops, PushNoTtl op = true) (hm : Monotone clock ops) :
     outs c ops = QSpec.outs q c.cfg ops ∧
     QRefines (c.run ops) (QSpec.run q c.cfg ops) (lastClock clock ops) ∧
@@ -193,7 +215,7 @@ theorem qrun_refines_strong (c : Cache) (q : QSpec.State) (n : Nat) (clock : Int
       rcases hq with h | h
       · exact .inl h
       · exact .inr (h op List.mem_cons_self)
-    obtain ⟨s1, s2, s3, s4⟩ := qstep_refines c q (n + pushCosts ops) clock op hok hr
+    obtain ⟨s1, s2, s3, s4⟩ := qstep_refines_covered c q (n + pushCosts ops) clock op hok hr
       (hk op List.mem_cons_self) (ho op List.mem_cons_self) hq1 hm1
     obtain ⟨h1, h2, h3, h4⟩ := ih (c.step op).1 (QSpec.step q c.cfg op).1 ((opClock op).getD clock) s3 s2
       (fun o h => hk o (List.mem_cons_of_mem _ h))
@@ -208,22 +230,41 @@ theorem qrun_refines_strong (c : Cache) (q : QSpec.State) (n : Nat) (clock : Int
       rw [s1, h1]
     · rw [run_cons, qspec_run_cons]; exact h2
 
-/-- **the history theorem** (partial: without add / touch / incr, see the header).
-Full statement: the same with `QSpec.Covered op` in place of `QProved op`.
+/-- **the history theorem**.
+For every history of push / pull / peek calls on any prefixes and sides, mixed with the
+key-addressed calls (set / add / touch / incr / get / contains / pop / del / delete) on keys that
+are not queue keys and with clear / evict / expire / cull, made with a clock that never goes
+backwards on a cache without size limit whose queue keys leave room for the pushes of the history:
+every call returns what the family of double-ended queues next to a dictionary returns, and the
+final states correspond. -/
+theorem qrun_refines (c : Cache) (q : QSpec.State) (n : Nat) (clock : Int) (ops : List Op)
+    (hok : QOk c (n + pushCosts ops)) (hr : QRefines c q clock)
+    (hk : ∀ op ∈ ops, QSpec.Covered op = true) (ho : ∀ op ∈ ops, QSpec.Ordinary c.cfg op = true)
+    (hq : c.cfg.cullLimit = 0 ∨ ∀ op ∈ ops, PushNoTtl op = true) (hm : Monotone clock ops) :
+    outs c ops = QSpec.outs q c.cfg ops ∧
+    ∃ clock', QRefines (c.run ops) (QSpec.run q c.cfg ops) clock' := by
+  obtain ⟨h1, h2, -⟩ := qrun_refines_covered_strong c q n clock ops hok hr hk ho hq hm
+  exact ⟨h1, _, h2⟩
 
-For every history of push / pull / peek calls on any prefixes and sides, mixed with
-set / get / contains / pop / del / delete on keys that are not queue keys and with clear / evict /
-expire / cull, made with a clock that never goes backwards on a cache without size limit whose
-queue keys leave room for the pushes of the history: every call returns what the family of
-double-ended queues next to a dictionary returns, and the final states correspond. -/
+/-- the first version's statement, with everything the induction carries -/
+theorem qrun_refines_strong (c : Cache) (q : QSpec.State) (n : Nat) (clock : Int) (ops : List Op)
+    (hok : QOk c (n + pushCosts ops)) (hr : QRefines c q clock)
+    (hk : ∀ op ∈ ops, QProved op = true) (ho : ∀ op ∈ ops, QSpec.Ordinary c.cfg op = true)
+    (hq : c.cfg.cullLimit = 0 ∨ ∀ op ∈ ops, PushNoTtl op = true) (hm : Monotone clock ops) :
+    outs c ops = QSpec.outs q c.cfg ops ∧
+    QRefines (c.run ops) (QSpec.run q c.cfg ops) (lastClock clock ops) ∧
+    QOk (c.run ops) n ∧ (c.run ops).cfg = c.cfg :=
+  qrun_refines_covered_strong c q n clock ops hok hr (fun op h => qproved_covered op (hk op h)) ho hq hm
+
+/-- the first version of the history theorem (without add / touch / incr): a corollary of
+`qrun_refines` -/
 theorem qrun_refines_partial (c : Cache) (q : QSpec.State) (n : Nat) (clock : Int) (ops : List Op)
     (hok : QOk c (n + pushCosts ops)) (hr : QRefines c q clock)
     (hk : ∀ op ∈ ops, QProved op = true) (ho : ∀ op ∈ ops, QSpec.Ordinary c.cfg op = true)
     (hq : c.cfg.cullLimit = 0 ∨ ∀ op ∈ ops, PushNoTtl op = true) (hm : Monotone clock ops) :
     outs c ops = QSpec.outs q c.cfg ops ∧
-    ∃ clock', QRefines (c.run ops) (QSpec.run q c.cfg ops) clock' := by
-  obtain ⟨h1, h2, -⟩ := qrun_refines_strong c q n clock ops hok hr hk ho hq hm
-  exact ⟨h1, _, h2⟩
+    ∃ clock', QRefines (c.run ops) (QSpec.run q c.cfg ops) clock' :=
+  qrun_refines c q n clock ops hok hr (fun op h => qproved_covered op (hk op h)) ho hq hm
 
 /-! ### the empty cache -/
 
@@ -247,15 +288,24 @@ theorem qok_init (cf : Cfg) (st : Bool) (n : Nat) (hp : cf.policy = .none) (hpg 
 /-- **what a user sees** on a fresh cache without size limit (default origin): any history of the
 covered calls with at most 499999999999999 pushes returns, call by call, what the family of
 queues next to a dictionary returns -/
+theorem queues_after_history_covered (cf : Cfg) (st : Bool) (ops : List Op)
+    (hp : cf.policy = .none) (hpg : 0 < cf.page) (hor : cf.qorigin = 500000000000000)
+    (hb : pushCosts ops ≤ 499999999999999)
+    (hk : ∀ op ∈ ops, QSpec.Covered op = true) (ho : ∀ op ∈ ops, QSpec.Ordinary cf op = true)
+    (hq : cf.cullLimit = 0 ∨ ∀ op ∈ ops, PushNoTtl op = true) (hm : Monotone 0 ops) :
+    outs ({ cfg := cf, statistics := st } : Cache) ops = QSpec.outs {} cf ops :=
+  (qrun_refines _ {} 0 0 ops
+    (by rw [Nat.zero_add]; exact qok_init cf st _ hp hpg (by omega) (by omega))
+    (qrefines_init cf st 0) hk ho hq hm).1
+
+/-- the first version's statement -/
 theorem queues_after_history (cf : Cfg) (st : Bool) (ops : List Op)
     (hp : cf.policy = .none) (hpg : 0 < cf.page) (hor : cf.qorigin = 500000000000000)
     (hb : pushCosts ops ≤ 499999999999999)
     (hk : ∀ op ∈ ops, QProved op = true) (ho : ∀ op ∈ ops, QSpec.Ordinary cf op = true)
     (hq : cf.cullLimit = 0 ∨ ∀ op ∈ ops, PushNoTtl op = true) (hm : Monotone 0 ops) :
     outs ({ cfg := cf, statistics := st } : Cache) ops = QSpec.outs {} cf ops :=
-  (qrun_refines_partial _ {} 0 0 ops
-    (by rw [Nat.zero_add]; exact qok_init cf st _ hp hpg (by omega) (by omega))
-    (qrefines_init cf st 0) hk ho hq hm).1
+  queues_after_history_covered cf st ops hp hpg hor hb (fun op h => qproved_covered op (hk op h)) ho hq hm
 
 /-! ### user-level corollaries -/
 
@@ -372,6 +422,36 @@ example : (match ((QSpec.outs {} exQCache.cfg exQOps).drop 11).take 4 with
 example : (match (QSpec.outs {} exQCache.cfg exQOps).drop 15 with
     | [.val (.int 500000000000000), .none, .val (.int 500000000000000),
        .tup [.val (.int 500000000000000), .val (.int 4)], .default, .none] => true
+    | _ => false) = true := by
+  decide +kernel
+
+/-- a history with `add`, `incr`, `touch` between the queue calls -/
+def exQOps2 : List Op :=
+  [ .push toyV 1 (.int 1) none true none false .null,
+    .add toyV 2 (.str [121]) (.int 5) none false .null,
+    .add toyV 2 (.str [121]) (.int 6) none false .null,
+    .incr toyV 3 (.str [121]) 2 none,
+    .incr toyV 3 (.str [122]) 1 (some 0),
+    .touch toyV 4 (.str [121]) (some 5),
+    .touch toyV 4 (.str [119]) none,
+    .push toyV 5 (.int 2) (some [117]) false (some 1) false .null,
+    .pull toyV 6 none true false false,
+    .get toyV 6 (.str [121]) false true false,
+    .peek toyV 7 (some [117]) true false false,
+    .get toyV 10 (.str [121]) false false false ]
+
+example : outs exQCache exQOps2 = QSpec.outs {} exQCache.cfg exQOps2 ∧
+    ∃ clock', QRefines (exQCache.run exQOps2) (QSpec.run {} exQCache.cfg exQOps2) clock' :=
+  qrun_refines exQCache {} 0 0 exQOps2
+    (qok_init _ _ _ rfl (by decide) (by decide) (by decide)) (qrefines_init _ _ 0)
+    (by decide) (by decide +kernel) (.inl rfl) (by decide +kernel)
+
+example : (match QSpec.outs {} exQCache.cfg exQOps2 with
+    | [.val (.int 500000000000000), .bool true, .bool false, .int 7, .int 1, .bool true, .bool false,
+       .val (.str [117, 45, 53, 48, 48, 48, 48, 48, 48, 48, 48, 48, 48, 48, 48, 48, 48]),
+       .tup [.val (.int 500000000000000), .val (.int 1)],
+       .tup [.val (.int 7), .time (some 9)],
+       .default, .default] => true
     | _ => false) = true := by
   decide +kernel
 
